@@ -165,6 +165,39 @@ def run(tier, t0):
                 res.violation('C06.5', 'C06.5|clear', wf, clears[0][1].get('line'), 'clear_caller_register(reg) is not on the None edge of the rule evaluation')
             if 'Option::Some cfa' not in show(wf.operand_tree(loop_e[0][1]['args'][2])):
                 res.violation('C06.5', 'C06.5|cfa-arg', wf, loop_e[0][1].get('line'), 'remaining rules are not evaluated with Some(cfa)')
+    # C06.7 every `REG: EXPR` pair of the applicable records is stored; nothing but .cfa/.ra is ever removed
+    res.rule('C06.7', 0, floor=3, note='rule map discipline: parse stores every pair with an unconditional insert (later overrides earlier); only .cfa / .ra are removed, by the evaluator')
+    for f in c.fns:
+        if not f.path.startswith(W) or '::test' in f.path:
+            continue
+        for b, t in f.calls():
+            n = f.callee(t)
+            targs = ' '.join(t.get('targs') or [])
+            if 'CfiReg' not in targs:
+                continue
+            m = re.match(r'std::collections::(BTreeMap|HashMap)::(\w+)$', n)
+            if not m:
+                continue
+            op = m.group(2)
+            if op in ('new', 'get', 'contains_key', 'len', 'is_empty', 'iter', 'into_iter'):
+                continue
+            res.rule('C06.7', 1)
+            if op == 'insert':
+                if not f.path.startswith(W + 'parse_cfi_exprs'):
+                    res.violation('C06.7', 'C06.7|insert-who|%s' % f.qual, f, t.get('line'), 'CFI rule map written outside parse_cfi_exprs')
+                    continue
+                # not conditional on the expression text
+                conds = [r for r, g, sx in panics.dominating_facts(f, b) if r[0] in ('eq', 'ne', 'true', 'false') and any(isinstance(x, tuple) and x and x[0] == 'str' and x[1] not in (':', '.cfa', '.ra', '$') for x in walk(r[1] if len(r) > 1 else ()) ) or (len(r) > 2 and isinstance(r[2], tuple) and r[2][0] == 'str' and r[2][1] not in ('.cfa', '.ra'))]
+                if conds:
+                    res.violation('C06.7', 'C06.7|insert-cond|%s' % f.qual, f, t.get('line'), 'storing a CFI rule depends on the rule text: %s' % [show(r[1])[:60] for r in conds][:2])
+                else:
+                    res.sample({'rule': 'C06.7', 'fn': f.qual.split('::')[-1], 'op': 'insert'})
+            elif op == 'remove':
+                key = show(f.expand(f.operand_tree(t['args'][1])))
+                if not (f.path == W + 'walk_with_stack_cfi' and re.search(r'CfiReg::(Cfa|Ra)\)?$', key)):
+                    res.violation('C06.7', 'C06.7|remove|%s' % f.qual, f, t.get('line'), 'a CFI rule is removed from the map (%s): its register would be neither set nor cleared' % key[:80])
+            else:
+                res.violation('C06.7', 'C06.7|%s|%s' % (op, f.qual), f, t.get('line'), 'unexpected mutation `%s` of the CFI rule map' % op)
     # C06.6 only rules at or below the address, in address order
     res.rule('C06.6', 0, floor=4, note='additional rules = add_rules[0..count], count advanced under add_rules[count].address <= addr; add_rules sorted; CfiRules orders by address first')
     wfr = None
